@@ -899,6 +899,10 @@ def draw_springs(rng, body, contact):
     gdir = random_unit(rng)
     P["weight"] = (gdir * kmean * float(loguniform(rng, 0.02, 0.4))).tolist()
     P["law"] = ["linear", "quadratic", "affine", "const"][int(rng.integers(4))]
+    # the body may still be moving when the static analysis is started (a state taken over from a dynamic run): a static
+    # equilibrium is one with the velocities at ZERO, whatever the system's initial velocities are
+    P["u0"] = ((rng.normal(size=6 if body == "rigid" else 3) * float(loguniform(rng, 0.3, 3.0))).tolist()
+               if (not contact and rng.random() < 0.4) else None)
     P["planes"] = []
     if contact:
         npl = 1 if rng.random() < 0.7 else 2
@@ -927,9 +931,10 @@ def build_springs(P, R, c):
     A = quat_to_mat(p)
     if P["body"] == "rigid":
         q0 = np.concatenate((c + R @ r, quat_mul(rot_to_quat(R), p)))
-        body = RigidBody(P["mass"], np.diag([0.1, 0.2, 0.15]) * P["mass"], q0=q0, u0=np.zeros(6), name="body")
+        u0_ = np.zeros(6) if P.get("u0") is None else np.concatenate((R @ np.asarray(P["u0"][:3]), np.asarray(P["u0"][3:])))
+        body = RigidBody(P["mass"], np.diag([0.1, 0.2, 0.15]) * P["mass"], q0=q0, u0=u0_, name="body")
     else:
-        body = PointMass(P["mass"], q0=c + R @ r, u0=np.zeros(3), name="body")
+        body = PointMass(P["mass"], q0=c + R @ r, u0=np.zeros(3) if P.get("u0") is None else R @ np.asarray(P["u0"]), name="body")
     S.add(body)
     for k, sp in enumerate(P["springs"]):
         att = np.asarray(sp["att"])
@@ -976,6 +981,8 @@ def case_springs(spec, ctx, contact=False):
     ctx.cls("%s:%s" % (kind, P["body"]))
     ctx.cls("springs:compliance=%d/%d" % (sum(s["compliance"] for s in P["springs"]), len(P["springs"])))
     ctx.cls("springs:prestressed" if any(s["pre"] for s in P["springs"]) else "springs:stress_free")
+    if P.get("u0") is not None:
+        ctx.cls("springs:system_has_initial_velocities")
     ctx.cls("weight_law:" + P["law"])
     ctx.cls("motion:" + mcls)
     for pl in P["planes"]:
